@@ -61,9 +61,10 @@ def seqops(name, ops, maxd, pres, **kw):
     h = dict(name=name, unit='seqg', harness='h_grow.c', defines=d, scenarios=[{'PRE': p} for p in pres], cbmc=['--unwind', '66', '--object-bits', '10'], timeout=900,
              desc='single thread: %s with symbolic deltas 0..%d / n; addresses stable after every call, ranges tile, values, destructor releases everything' % (', '.join(ops), maxd),
              bounds={'operations': list(ops), 'delta': '0..%d' % maxd, 'pre-grown sizes': list(pres)})
+    d.update(kw.pop('defines_extra', {}))
     h.update(kw); return h
 HARNESSES += [
-  seqops('seq_gb_gb', ('gb', 'gb'), 9, (0, 3)),
+  seqops('seq_gb_gb', ('gb', 'gb'), 5, (0, 3, 6), defines_extra={'MIND': 1, 'TABW': 8, 'NODESTROY': 1}, cbmc=['--unwind', '8', '--unwindset', 'vp_memset.0:66,vp_memset.1:66', '--object-bits', '10']),
   grow('pb2', ('pb', 'pb'), False, 2, [sc2(p, 0, 2, **({'PROBE': 0} if p else {})) for p in (0, 1, 2, 3)]),
   grow('pb_gb', ('pb', 'gb'), False, 2, [sc2(p, m, 4, **({'PROBE': 0} if p else {})) for p, m in ((0, 0), (1, 0), (3, 0), (3, 1))], tiers=('thorough',), timeout=3600),
   grow('pb2_table', ('pb', 'pb'), True, 1, [sc2(7, 0, 2, PROBE=0, TABW=8)]),
